@@ -25,6 +25,10 @@ func runLine(c *checker, line string) {
 	case "E":
 		if v, err := wv.Parse(strings.Join(f[1:], " ")); err == nil {
 			c02Value(c, v, "replay")
+			// once more after a failed Encode of the same value (pooled state left behind by a
+			// failed call is part of what the run explores)
+			c02FailedEncode(v)
+			c02Value(c, v, "replay-after-failed-encode")
 		}
 	case "L", "D":
 		if len(f) == 3 {
